@@ -276,6 +276,15 @@ public:
     virtual void
     postConstruction(StylesheetConstructionContext&     constructionContext);
 
+    /**
+     * Collect, in this stylesheet's NamespacesHandler, the namespace aliases
+     * declared in the stylesheets it imports (directly or indirectly).  An
+     * alias declared here, or in an import with higher import precedence,
+     * is kept when an import declares one for the same namespace URI.
+     */
+    void
+    collectNamespaceAliases();
+
     /** 
      * See if this is a xmlns attribute, and, if so, process it.
      * 
